@@ -31,6 +31,7 @@ def run(ctx):
     agg = run_family("C13rand", f3, NAMES, dev=dev, invariants=INVS, perms=(0,),
                      timeout=1800, simulate=(200 if quick else 5000, 600, ctx.seed))
     ctx.add_family(agg)
+    fallback_tag_part(ctx)
     for f in ctx.known():
         ctx.witness(f)
     ctx.exhaustive = True
@@ -39,3 +40,46 @@ def run(ctx):
                 "points per level raising (lazy choice); plus simulated random programs with on-error; non-trivial = "
                 "at least one call evaluated")
     ctx.assumptions += ["handler calls are observed through on_error_handler=; 'error' fields through the fallback expression"]
+
+
+def fallback_tag_part(ctx):
+    """the fallback's start tag carries the element's static attributes -- all of them, also those that are translated
+    (i18n:attributes, implicit i18n attributes), written valueless, unquoted or with entities: it equals the start tag of
+    the same element when nothing fails"""
+    import sys
+    from harness import REPO_SRC
+    sys.path.insert(0, REPO_SRC)
+    from chameleon import PageTemplate
+
+    def tr(msgid, domain=None, mapping=None, context=None, target_language=None, default=None):
+        return "T(%s)" % msgid
+    statics = ['href="/h" title="Get help" alt="x"', "href='/h' title='a &amp; b' alt=x", 'title="t" checked', 'title="Get help"']
+    i18ns = [("", {}), (' i18n:attributes="title"', {}), (' i18n:attributes="title tid"', {}), (' i18n:attributes="title; alt"', {}),
+             ("", {"implicit_i18n_attributes": ["title"]}), (' i18n:attributes="alt"', {"implicit_i18n_attributes": ["title", "alt"]})]
+    n = 0
+    for st in statics:
+        for ia, opts in i18ns:
+            if "alt" in ia and "alt" not in st:
+                continue
+            for translate in (None, tr):
+                for wrap in ('%s', '<div tal:on-error="string:OUTER">%s</div>', '<ul><li tal:repeat="i (1, 2)">%s</li></ul>'):
+                    o = dict(opts)
+                    if translate:
+                        o["translate"] = translate
+                    el = '<a %s%s tal:on-error="string:FB">k${%%s}</a>' % (st, ia)
+                    bad = "<r>pre" + wrap % (el % "1/0") + "post</r>"
+                    good = "<r>pre" + wrap % (el % "''") + "post</r>"
+                    n += 1
+                    try:
+                        got = PageTemplate(bad, **o)()
+                        want = PageTemplate(good, **o)().replace(">k</a>", ">FB</a>")
+                    except Exception as e:
+                        ctx.violation("fallback tag: %r raised %s: %s" % (bad, type(e).__name__, e), dict(kind="fallback-tag", source=bad))
+                        continue
+                    if got != want:
+                        ctx.violation("fallback tag: %r (options %s) renders %r; the element's own start tag with the fallback "
+                                      "content is %r" % (bad, sorted(opts), got, want), dict(kind="fallback-tag", source=bad, got=got, want=want))
+                        if len(ctx.violations) > 6:
+                            return
+    ctx.replays += 2 * n
+    ctx.notes["fallback_tag_cases"] = n
